@@ -388,6 +388,32 @@ def run(chk):
       chk.ob('C16-R1', linked, None, '%s leaves both sides denoting one type' % name,
              'a successful unification path does not link the two references',
              fi=fi)
+  # two closed records have no rank order between them: whatever decides
+  # clash / merge there must be a symmetric relation of the two field sets
+  # (equality), not inclusion of the first in the second
+  it = Interp(fi.node, hooks(rank))
+  outs = it.run(State(env={'a': Ref('A', 'ClosedRecord'), 'b': Ref('B', 'ClosedRecord')}))
+  deciding = set()
+  for o in outs:
+    for tr in o.state.trace:
+      deciding.add(tr.rsplit('=', 1)[0])
+  asym = []
+  for text in sorted(deciding):
+    try:
+      e = ast.parse(text, mode='eval').body
+    except SyntaxError:
+      continue
+    for c in ast.walk(e):
+      if isinstance(c, ast.Compare) and any(isinstance(op, (ast.Lt, ast.LtE, ast.Gt, ast.GtE))
+                                            for op in c.ops):
+        asym.append(text)
+      if isinstance(c, ast.Call) and call_tail(c) in ('issubset', 'issuperset'):
+        asym.append(text)
+  chk.ob('C16-R1', bool(deciding) and not asym, None,
+         'Unify(ClosedRecord, ClosedRecord) is decided by a symmetric relation of the field sets',
+         'two closed records are unified when `%s`: with the arguments the '
+         'other way round the same two types clash (and a closed record gains '
+         'fields it does not have)' % (asym[0] if asym else ''), fi=fi)
   ss = table[('Singular', 'Sequential')]
   ok = all(any(e[0] == 'set' and e[2] == 'Str' for e in eff) for kind, eff in ss)
   chk.ob('C16-R1', ok, None, 'Singular ^ Sequential = Str',
